@@ -1,0 +1,11 @@
+//go:build verif
+
+package shard
+
+import (
+	meta "github.com/nspcc-dev/neofs-node/pkg/local_object_storage/metabase"
+)
+
+// VerifEngMeta returns the shard's metabase for state projection by the
+// verification harness of the engine family.
+func (s *Shard) VerifEngMeta() *meta.DB { return s.metaBase }
